@@ -116,11 +116,13 @@ def _model(rng):
         for _ in range(rng.randint(0, 3)):
             nm = rng.choice([".Main", "Short", pkg + ".Full", "other.pkg.Cls", ".sub.Deep"]) + str(rng.randint(0, 9))
             main = kind == "activity" and rng.random() < 0.4
+            if kind == "activity" and not main and rng.random() < 0.25:
+                main = "split"          # MAIN in one intent filter, LAUNCHER in another: not a launcher activity
             mo["components"][kind].append((nm, main))
     for _ in range(rng.randint(0, 2)):
-        mo["features"].append(rng.choice(["android.hardware.camera", "android.hardware.nfc", "android.software.leanback"]))
+        mo["features"].append(rng.choice(["android.hardware.camera", "android.hardware.nfc", "android.software.leanback", "camera", ".touch"]))
     for _ in range(rng.randint(0, 2)):
-        mo["libraries"].append(rng.choice(["org.apache.http.legacy", "com.google.android.maps"]))
+        mo["libraries"].append(rng.choice(["org.apache.http.legacy", "com.google.android.maps", "mylib", ".locallib"]))
     return mo
 
 
@@ -147,7 +149,10 @@ def _serialise(mo, rng):
     for p, mx in mo["perms"]:
         at = [_attr("name", p, 0x01010003)]
         if mx is not None:
-            at.append(_attr("maxSdkVersion", mx, 0x01010271))
+            a_mx = _attr("maxSdkVersion", mx, 0x01010271)
+            if rng.random() < 0.4:
+                a_mx.value = ("hex", mx)          # the same integer stored with the hexadecimal data type
+            at.append(a_mx)
         root.children.append(W.Elem("uses-permission", attrs=at))
     for f in mo["features"]:
         root.children.append(W.Elem("uses-feature", attrs=[_attr("name", f, 0x01010003)]))
@@ -155,7 +160,14 @@ def _serialise(mo, rng):
     for kind, items in mo["components"].items():
         for nm, main in items:
             e = W.Elem(kind, attrs=[_attr("name", nm, 0x01010003)])
-            if main:
+            if main == "split":
+                e.children.append(W.Elem("intent-filter", children=[
+                    W.Elem("action", attrs=[_attr("name", "android.intent.action.MAIN", 0x01010003)]),
+                    W.Elem("category", attrs=[_attr("name", "android.intent.category.DEFAULT", 0x01010003)])]))
+                e.children.append(W.Elem("intent-filter", children=[
+                    W.Elem("action", attrs=[_attr("name", "android.intent.action.VIEW", 0x01010003)]),
+                    W.Elem("category", attrs=[_attr("name", "android.intent.category.LAUNCHER", 0x01010003)])]))
+            elif main:
                 e.children.append(W.Elem("intent-filter", children=[
                     W.Elem("action", attrs=[_attr("name", "android.intent.action.MAIN", 0x01010003)]),
                     W.Elem("category", attrs=[_attr("name", "android.intent.category.LAUNCHER", 0x01010003)])]))
@@ -204,7 +216,7 @@ def generated_manifests(U):
     for kind, getter in (("activity", a.get_activities), ("service", a.get_services), ("receiver", a.get_receivers), ("provider", a.get_providers)):
         want = [_complete(pkg, n) for n, _ in mo["components"][kind]]
         U.ensures("%s names completed with the package name" % kind, sorted(getter()) == sorted(want), got=sorted(getter()), want=sorted(want))
-    mains = sorted(_complete(pkg, n) for n, mn in mo["components"]["activity"] if mn)
+    mains = sorted(_complete(pkg, n) for n, mn in mo["components"]["activity"] if mn is True)
     got_main = a.get_main_activity()
     U.ensures("main activity is a declared launcher activity (None if there is none)",
               (got_main is None and not mains) or (got_main in mains), got=got_main, want=mains)
